@@ -102,7 +102,11 @@ let () =
               | "mks" -> let a = nexti () in let b = nexti () in OMakeScalar ((zi a, zi b), fl)
               | "mkv" -> let n = nexti () in let fs = times n (fun () -> zi (nexti ())) in let gs = vals n in OMakeVector (fs, gs, fl)
               | "mku" -> let h = nexti () in OMakeUnknown (zi h, fl)
-              | "mkc" -> let h = nexti () in let n = nexti () in OMakeCorrelated (zi h, zi n, fl)
+              | "mkc" -> let h = nexti () in let n = nexti () in
+                (* further tokens: the parameter's own sigma frequency grid (none: NULL) *)
+                let k = List.length !toks in
+                let sf = if k = 0 then None else Some (times k (fun () -> zi (nexti ()))) in
+                OMakeCorrelated (zi h, zi n, sf, fl)
               | "delp" -> ODeleteParam (zi (nexti ()))
               | "getv" -> let h = nexti () in let f = nexti () in OGetValue (zi h, zi f)
               | "nalloc" -> let id = nexti () in let ty = nexti () in let dim = nexti () in let nf = nexti () in
